@@ -161,6 +161,11 @@ def evaluate(pid, k, checks):
     patch = os.path.join(dst, 'patch.diff')
     meta = json.load(open(os.path.join(dst, 'meta.json')))
     clean(wt)
+    # the change is tried on top of the repository as it is now (with every repair made since the
+    # worktree was created), so that what a check reports is the seeded change and nothing else
+    head = subprocess.run(['git', '-C', '/repo', 'rev-parse', 'HEAD'], capture_output=True, text=True).stdout.strip()
+    sh(f'git checkout -q --detach {head}', cwd=wt)
+    meta['evaluated_on'] = head[:8]
     rc, out = sh(f'git apply {patch}', cwd=wt)
     if rc != 0:
         print('patch does not apply', out)
